@@ -283,6 +283,16 @@ def represent(cr, rng, rotate=True, translate=True, permute=True, shear=True, su
             desc["supercell"] = H.tolist()
     if shear:
         U = random_unimodular(rng)
+        if rng.random() < 0.35:
+            # a LEFT-handed lattice basis (two vectors exchanged or one reversed): still a basis of the same lattice
+            S = np.eye(3, dtype=int)
+            if rng.random() < 0.5:
+                i, j = rng.sample(range(3), 2)
+                S[[i, j]] = S[[j, i]]
+            else:
+                S[rng.randrange(3)] *= -1
+            U = S @ U
+            desc["lefthanded_basis"] = True
         t = transform_basis(out, U)
         if t is not None:
             out = t
